@@ -28,6 +28,12 @@ Theorem C18_ranges_partition : forall (k : text) (n : Z), key_int k = Ok n ->
 Proof. exact ranges_partition. Qed.
 Print Assumptions C18_ranges_partition.
 
+(* ... and every number n >= 0 is the value of a key (negative numbers have no CONDITION_KEY spelling), so the partition
+   above is a statement about all key numbers *)
+Theorem C18_every_number_has_a_key : forall n : Z, (0 <= n)%Z -> key_int (numeral n) = Ok n.
+Proof. exact every_number_has_a_key. Qed.
+Print Assumptions C18_every_number_has_a_key.
+
 (* anything else: "nP" is a package (NotImplementedError in the extraction loop), other strings are rejected *)
 Theorem C18_category_total : forall k : text,
   (exists n, key_int k = Ok n) \/
@@ -53,6 +59,18 @@ Theorem C18_extract_sorted_nodup : forall e r, extract_tree e true = Ok r ->
      StronglySorted num_lt (rc_keys r) /\ StronglySorted num_lt (hint_keys r) /\ StronglySorted num_lt (fc_keys r)).
 Proof. exact extract_sorted_nodup. Qed.
 Print Assumptions C18_extract_sorted_nodup.
+
+(* anything else is rejected: the extraction succeeds iff every condition key is in a documented range, and otherwise
+   raises what the first offending key raises (ValueError; NotImplementedError for a key list entry that ends with P) *)
+Theorem C18_extract_accepts : forall e,
+  (exists r, extract e = Ok r) <-> Forall (fun k => exists c, category_of k = Ok c) (cond_keys_of e).
+Proof. exact extract_accepts. Qed.
+Print Assumptions C18_extract_accepts.
+
+Theorem C18_extract_rejects : forall e san err, extract_tree e san = Exn err ->
+  exists k, In (AKey k) (atoms e) /\ category_of k = Exn err /\ (err = ValueErr \/ err = NotImpl).
+Proof. exact extract_rejects. Qed.
+Print Assumptions C18_extract_rejects.
 
 (* without sanitizing: concatenation, and the composed extraction succeeds iff both parts do *)
 Theorem C18_extract_union_raw : forall b x y r,
